@@ -13,7 +13,7 @@ import json
 
 from lib import progs
 from lib.framework import Family
-from lib.coqbridge import to_coq, Nat, C, flat
+from lib.coqbridge import to_coq, Nat, Pos, C, flat
 
 ID = "C12"
 PROPS_FILE = "Props/C12.v"
@@ -72,7 +72,7 @@ def _global_fields(rng):
     return out
 
 
-def _gen_history(rng, length, first_add_after=None, fault=0.25):
+def _gen_history(rng, length, first_add_after=None, fault=0.25, lean=False):
     """first_add_after: force that many logs (interspersed with globals) before the first add"""
     hist = []
     st = {"serial": 0, "next_id": 0, "registered": [], "removed": [], "added": False}
@@ -80,7 +80,7 @@ def _gen_history(rng, length, first_add_after=None, fault=0.25):
     def log():
         st["serial"] += 1
         fs = [[SERIAL, {"i": st["serial"]}]]
-        for _ in range(rng.randrange(0, 3)):
+        for _ in range(0 if lean and rng.random() < 0.9 else rng.randrange(0, 3)):
             k = rng.choice(MSG_KEYS)
             if all(k != f[0] for f in fs):
                 fs.append([k, _value(rng)])
@@ -88,7 +88,7 @@ def _gen_history(rng, length, first_add_after=None, fault=0.25):
 
     def add():
         ds = []
-        for _ in range(rng.choice([1, 1, 2, 2, 3])):
+        for _ in range(rng.choice([1, 1, 2, 2, 3]) if st["added"] or not lean else 1):
             r = rng.random()
             if r > fault:
                 b = ["never"]
@@ -138,20 +138,28 @@ def _gen_history(rng, length, first_add_after=None, fault=0.25):
     return hist
 
 
+SHARD = 24      # cases per Coq file; the long histories are spread out, one per file (printing them dominates)
+
+
 def gen_histories(rng, tier):
-    out = []
     if tier == "quick":
-        n_small, n_big, big_hi, tail = 260, 6, 1100, 30
+        n_small, n_big, big_hi, tail, n_long = 200, 6, 1100, 30, 0
     else:
-        n_small, n_big, big_hi, tail = 2500, 60, 3000, 200
-    for _ in range(n_small):
-        out.append({"hist": _gen_history(rng, rng.randrange(1, 61))})
+        n_small, n_big, big_hi, tail, n_long = 2500, 40, 3000, 200, 60
+    small = [{"hist": _gen_history(rng, rng.randrange(1, 61))} for _ in range(n_small)]
+    big = []
     for k in range(n_big):
         nbuf = CAP + 1 + (k if k < 3 else rng.randrange(0, big_hi - CAP))
-        out.append({"hist": _gen_history(rng, nbuf + 20 + rng.randrange(0, tail), first_add_after=nbuf, fault=0.15)})
-    if tier != "quick":
-        for _ in range(200):
-            out.append({"hist": _gen_history(rng, rng.randrange(200, 3000))})
+        big.append({"hist": _gen_history(rng, nbuf + 20 + rng.randrange(0, tail), first_add_after=nbuf, fault=0.15, lean=True),
+                    "big": True})
+    for _ in range(n_long):
+        big.append({"hist": _gen_history(rng, rng.randrange(200, 3000), lean=True), "big": True})
+    out = []
+    while small or big:
+        if big:
+            out.append(big.pop(0))
+        out += small[:SHARD - 1]
+        small = small[SHARD - 1:]
     return out
 
 
@@ -199,8 +207,17 @@ def _never_fails(case):
 def model_histories(case):
     ids = to_coq([Nat(i) for i in progs.all_dest_ids(_interp_case(case))])
     h = to_coq([_c_hop(o) for o in case["hist"]])
-    spec = "map (fun i => spec_received i h) %s" % ids if _never_fails(case) else "@nil (list msg)"
-    return ("let h := %s in (fst (observe (run (mk_config [] []) (map hop_op h) init_state) %s), %s)" % (h, ids, spec))
+    if not _never_fails(case):
+        spec = "@nil (list msg)"
+    else:
+        # (printing is what costs: only the serial numbers of the specification are printed)
+        spec = "map (fun i => map (fun m => [(%s, match fget %s m with Some v => v | None => VTime end)]) (spec_received i h)) %s" % (
+            to_coq(Pos(SERIAL)), to_coq(Pos(SERIAL)), ids)
+    obs = "fst (observe (run (mk_config [] []) (map hop_op h) init_state) %s)" % ids
+    if case.get("big"):
+        # long histories: timestamp and task_level ([1] for every message here) are not printed
+        obs = ("map (fun x => (fst x, map (filter (fun kv => negb (Pos.eqb (fst kv) 2 || Pos.eqb (fst kv) 3))) (snd x))) (%s)" % obs)
+    return "let h := %s in (%s, %s)" % (h, obs, spec)
 
 
 def model_obs_histories(case, parsed):
@@ -210,12 +227,17 @@ def model_obs_histories(case, parsed):
     if _never_fails(case):
         # the declarative specification evaluated on the same history (theorem C12_history says they are equal)
         s = {"dests": [[i, [progs.m_msg(x) for x in ms]] for (i, _), ms in zip(traces, spec)], "probes": [], "outcome": None}
-        if progs.rename_uuids(s)["dests"] != out["dests"]:
+        want = out["dests"]
+        if True:
+            want = [[i, [[kv for kv in m if kv[0] == SERIAL] or [[SERIAL, ["time"]]] for m in ms]] for i, ms in want]
+        if progs.rename_uuids(s)["dests"] != want:
             out["spec_received_differs_from_run"] = True
     return out
 
 
 def project_histories(case, obs):
+    if case.get("big"):
+        return {"dests": [[i, [[kv for kv in m if kv[0] not in (2, 3)] for m in ms]] for i, ms in obs["dests"]]}
     return {"dests": obs["dests"]}
 
 
@@ -581,7 +603,7 @@ def known_handover(case, obs, failure):
 FAMILIES = [
     Family("histories", gen_histories, impl_histories, model_histories, model_obs_histories, oracle_histories,
            nontrivial_histories, imports=["Model.Core", "Model.Prog", "Model.Handover"], project=project_histories,
-           shrink=shrink_histories, describe=describe_histories, shard=40, coq_shard=40, case_timeout=30),
+           shrink=shrink_histories, describe=describe_histories, shard=SHARD, coq_shard=SHARD, case_timeout=30),
     Family("handover", gen_handover, impl_handover, None, None, oracle_handover, nontrivial_handover,
            known=known_handover, imports=["Model.Core", "Model.Handover"], project=project_handover,
            describe=describe_handover, shard=40, case_timeout=30),
